@@ -50,7 +50,7 @@ type vlDB struct {
 	calls []int // client indices asked for since the last drain (0 = unknown IP)
 }
 
-func vlCountry(i int) string { return string([]byte{byte('A' + i), byte('A' + i)}) }
+func vlCountry(i int) string { return string([]byte{byte('P' + i), byte('P' + i)}) }
 
 func (d *vlDB) GetIPInfo(ip net.IP) (ipinfo.IPInfo, error) {
 	d.mu.Lock()
